@@ -1,0 +1,31 @@
+//go:build verif
+
+// Contracts for package diff, checked by /verif/govc (comment-only file).
+package diff
+
+// ---- C15: hardened Go environment
+// keyIs: entry e sets the variable K (in any letter case, as the filter and the loader see it).
+//@ pred keyIs(e string, K string) = hasPrefix(upper(e), K + "=")
+//@ pred guarded(e string) = keyIs(e, "CGO_ENABLED") || keyIs(e, "GOPROXY") || keyIs(e, "GOFLAGS") || keyIs(e, "GONOSUMDB")
+//@   || keyIs(e, "GOWORK") || keyIs(e, "GO111MODULE") || keyIs(e, "GOTOOLCHAIN")
+// effective(env, K, entry): the last entry of env that sets K is exactly `entry` (last one wins in os/exec and gocommand).
+//@ pred effective(env []string, K string, entry string) = exists p in 0..len(env) :: env[p] == entry && (forall j in p+1..len(env) :: !keyIs(env[j], K))
+//@ opaque pred hardened(env []string) = effective(env, "CGO_ENABLED", "CGO_ENABLED=0") && effective(env, "GOPROXY", "GOPROXY=off")
+//@   && effective(env, "GOFLAGS", "GOFLAGS=-mod=readonly") && effective(env, "GONOSUMDB", "GONOSUMDB=*") && effective(env, "GOWORK", "GOWORK=off")
+//@   && effective(env, "GO111MODULE", "GO111MODULE=on") && effective(env, "GOTOOLCHAIN", "GOTOOLCHAIN=local")
+
+// pos (ghost): where ambient entry k went in the result, for the entries the loop kept.
+//@ func GetHardenedEnv
+//@   reveal hardened
+//@   ghost pos map[int]int
+//@   ensures [C15.effective] hardened(result)
+//@   ensures [C15.pass] forall k in 0..envLen() :: !guarded(envAt(k)) ==> 0 <= pos[k] && pos[k] < len(result) && result[pos[k]] == envAt(k)
+//@   ensures [C15.pass] forall k, k2 in 0..envLen() :: k < k2 && !guarded(envAt(k)) && !guarded(envAt(k2)) ==> pos[k] < pos[k2]
+//@   loop 1 update pos = ite(len(env) > len(prev(env)), store(prev(pos), prev(#i), len(prev(env))), prev(pos))
+//@   loop 1 invariant 0 <= #i && #i <= envLen()
+//@   loop 1 invariant forall k in 0..#i :: !guarded(envAt(k)) ==> 0 <= pos[k] && pos[k] < len(env) && env[pos[k]] == envAt(k)
+//@   loop 1 invariant forall k, k2 in 0..#i :: k < k2 && !guarded(envAt(k)) && !guarded(envAt(k2)) ==> pos[k] < pos[k2]
+
+//@ func loadPackagesFromSource
+//@   noframe
+//@   ensures [C15.site] true
